@@ -311,5 +311,7 @@ func checkProofResult(result, value []byte) bool {
 	s = append(s, tempBytes...)
 	// TODO
 	//hash := crypto.Keccak256(value)
-	return bytes.Equal(s, value)
+	// a storage slot holds a 32-byte word: values shorter than a word (the 8-byte
+	// clean sequence) are stored left-padded
+	return bytes.Equal(s, common.LeftPadBytes(value, 32))
 }
